@@ -20,8 +20,39 @@ let run_history (p : params) (oc : out_channel) (h : history) =
     h.ops;
   output_string oc "endhist\n"
 
+(* evaluate the extracted monitors on a trace file *)
+let monitors (b : int) : (string * (Model.op * event list) list -> bool) list = []
+
+let chk_history (b : int) (oc : out_channel) (tr : (string, (int * event list) list) Hashtbl.t) (h : history) =
+  match Hashtbl.find_opt tr h.name with
+  | None -> Printf.fprintf oc "%s MISSING\n" h.name
+  | Some ops ->
+    (* align with the history's ops; a dead history simply has fewer ops; leak diagnostics (-2)
+       are appended to the last op present *)
+    let leaks = List.concat_map (fun (k, evs) -> if k = -2 then evs else []) ops in
+    let real = List.filter (fun (k, _) -> k >= 0) ops in
+    let n = List.length real in
+    let t = List.mapi (fun i (k, evs) ->
+        let (_, o) = List.nth h.ops k in
+        (o, if i = n - 1 then evs @ leaks else evs)) real in
+    let bb = nat_of_int b in
+    let res = [
+      "C02", chk_C02 t; "C04", chk_C04 t; "C05", chk_C05 t; "C06", chk_C06 t; "C07", chk_C07 t;
+      "C08", chk_C08 t; "C09", chk_C09 t; "C10", chk_C10 t; "C11", chk_C11 t;
+      "C13", chk_C13a bb t; "C14", chk_C14b t; "C15", chk_C15 t; "C16", chk_C16 t ] in
+    Printf.fprintf oc "%s %s\n" h.name
+      (String.concat " " (List.map (fun (n, v) -> Printf.sprintf "%s=%d" n (if v then 1 else 0)) res))
+
 let () =
   match Array.to_list Sys.argv with
+  | _ :: "chk" :: b :: hf :: tf :: outf :: _ ->
+    let ic = open_in hf in
+    let hs = read_histories ic in
+    close_in ic;
+    let tr = read_trace_file tf in
+    let oc = open_out outf in
+    List.iter (chk_history (int_of_string b) oc tr) hs;
+    close_out oc
   | _ :: "run" :: b :: m :: g :: w :: hf :: tf :: _ ->
     let p = params_of (int_of_string b) (int_of_string m) (int_of_string g) (int_of_string w) in
     let ic = open_in hf in
